@@ -105,6 +105,9 @@ class GStruct(GraphBase):
         E("read vec.native.apply_mask(mask2).native", lambda c: _arr(c["vec"].native.apply_mask(mask=c["mask2"]).native))
         E("SimulatorImaging(sky).via_image_from(image with negative pixels).data", lambda c: _arr(
             aa.SimulatorImaging(exposure_time=100.0, psf=c["own_kern"], background_sky_level=9.0, add_poisson_noise_to_data=False, noise_seed=1).via_image_from(image=c["a_neg"]).data.native))
+        # plain content reads of every structure other events hand on: an event that wrote into one of them is seen by the next read
+        for k in ("gN", "aN", "vecN", "a_neg", "a_full", "gn", "vec", "own_a", "kern", "mask", "mask2"):
+            E("read %s (contents)" % k, (lambda k: lambda c: _arr(c[k]))(k))
         # slim (1D) inputs: the structure may legitimately share memory with the input, but no query may then write to it
         E("construct Array2D(slim values)", lambda c: _arr(aa.Array2D(values=c["in_slim"], mask=c["mask"]).native))
         E("construct Kernel2D(slim values, shape_native, normalize)",
